@@ -93,6 +93,11 @@ def main():
                 bad += 1
                 continue
             neutral = seed.startswith("neutral-")
+            try:
+                # a seed whose change no longer breaks the property since a later fix: commit in /repo (recorded in its meta.json) is expected to be silent
+                neutral = neutral or bool(json.load(open(os.path.join(SEEDED, seed, "meta.json"))).get("superseded_by"))
+            except Exception:
+                pass
             for r in res["runs"]:
                 if neutral:
                     # behaviour-preserving change: the check must stay silent (exit 0); exit 2 = machinery could not cope, exit 1 = false alarm
